@@ -13,6 +13,7 @@ import (
 	"github.com/oasisprotocol/oasis-core/go/common/cbor"
 	"github.com/oasisprotocol/oasis-core/go/common/logging"
 	"github.com/oasisprotocol/oasis-core/go/storage/mkvs/db/api"
+	"github.com/oasisprotocol/oasis-core/go/storage/mkvs/db/verifhook"
 	"github.com/oasisprotocol/oasis-core/go/storage/mkvs/node"
 	"github.com/oasisprotocol/oasis-core/go/storage/mkvs/writelog"
 )
@@ -458,9 +459,11 @@ func (d *badgerNodeDB) Finalize(roots []node.Root) error { // nolint: gocyclo
 	if err := batch.Flush(); err != nil {
 		return err
 	}
+	verifhook.Point("path.finalize.copy_flushed")
 	if err := batchMeta.Flush(); err != nil {
 		return err
 	}
+	verifhook.Point("path.finalize.copymeta_flushed")
 	batch = d.db.NewWriteBatchAt(versionToTs(version))
 	defer batch.Cancel()
 	batchMeta = d.db.NewWriteBatchAt(tsMetadata)
@@ -512,13 +515,16 @@ func (d *badgerNodeDB) Finalize(roots []node.Root) error { // nolint: gocyclo
 	if err := batch.Flush(); err != nil {
 		return err
 	}
+	verifhook.Point("path.finalize.delete_flushed")
 	if err := batchMeta.Flush(); err != nil {
 		return err
 	}
+	verifhook.Point("path.finalize.deletemeta_flushed")
 
 	// Update last finalized version.
 	d.meta.setLastFinalizedVersion(version)
 	d.meta.commit(tx)
+	verifhook.Point("path.finalize.meta_committed")
 
 	// Clean multipart metadata if there is any.
 	if d.multipartVersion != multipartVersionNone {
@@ -631,9 +637,11 @@ func (d *badgerNodeDB) Prune(version uint64) error {
 	if err := batch.Flush(); err != nil {
 		return fmt.Errorf("mkvs/pathbadger: failed to flush batch: %w", err)
 	}
+	verifhook.Point("path.prune.batch_flushed")
 	if err := batchMeta.Flush(); err != nil {
 		return fmt.Errorf("mkvs/pathbadger: failed to flush batch: %w", err)
 	}
+	verifhook.Point("path.prune.batchmeta_flushed")
 
 	// Update metadata.
 	d.meta.setEarliestVersion(version + 1)
@@ -725,6 +733,7 @@ func (d *badgerNodeDB) NewBatch(oldRoot node.Root, version uint64, chunk bool) (
 			return nil, err
 		}
 		d.meta.commit(tx)
+		verifhook.Point("path.newbatch.seq_reserved")
 		// Start a fresh index.
 		lastIndex = new(atomic.Uint32)
 		lastIndex.Store(indexRootNode)
@@ -929,6 +938,7 @@ func (ba *badgerBatch) Commit(root node.Root) error {
 		return fmt.Errorf("mkvs/pathbadger: failed to set pending root seqno: %w", err)
 	}
 	ba.db.meta.commit(tx)
+	verifhook.Point("path.commit.seqno_committed")
 
 	if !ba.chunk {
 		// Store updated nodes (only needed until the version is finalized).
@@ -952,6 +962,7 @@ func (ba *badgerBatch) Commit(root node.Root) error {
 	if err := ba.batMeta.Flush(); err != nil {
 		return fmt.Errorf("mkvs/pathbadger: failed to flush batch: %w", err)
 	}
+	verifhook.Point("path.commit.meta_flushed")
 	if err := ba.bat.Flush(); err != nil {
 		return fmt.Errorf("mkvs/pathbadger: failed to flush batch: %w", err)
 	}
